@@ -1,8 +1,174 @@
 import Got.Drv.Common
-/- driver for the codec model family (properties C11, C12): to be written -/
-namespace Got.Drv.Codec
+import Got.Model.Codec
+import Got.Spec.Codec
+/-
+drv_codec c11 : script lines
+    seq <t>:<payload> <t>:<payload> ...
+  t = b bool (0|1), y byte (2 hex digits), h int16, i int32, l int64, v 7-bit int32 (signed decimal),
+      B bytes, S string, R raw Write/Read (hex, "-" = empty)
+  output:  bytes=<hex> | <t>:<value>@<pos> ... | len=<n> pos=<p>
+  (all writes in order with the model writers; then the matching read calls in order)
 
-def main (_args : List String) : IO Unit := do
-  IO.eprintln "drv_codec: not implemented"
+drv_codec c12 : script lines
+    <hex input> | [@k ]<op> ; [@k ]<op> ; ...
+  op = bool byte i16 i32 i64 v7 bytes str raw<n>;  `@k` = the call is made on a fresh stream positioned at k
+  output:  <out> p=<pos> l=<len> a=<0|1> ; ...
+  out = ok:<value> | err:<Enum> | panic ; a=1 iff the ghost allocation exceeds 2*(remaining input) + 64
+
+drv_codec spec : script lines `leb <nat>` / `le <w> <nat>`  → hex of the specification encoders (used by tests only)
+-/
+namespace Got.Drv.Codec
+open Got.Model.Codec Got.Drv
+
+def toBytes (ns : List Nat) : List Byte := ns.map (BitVec.ofNat 8)
+def hexOf (bs : List Byte) : String := toHex (bs.map BitVec.toNat)
+
+def parseBytes? (s : String) : Option (List Byte) := (parseHex? s).map toBytes
+
+def parseVal? (tok : String) : Option Val :=
+  match tok.splitOn ":" with
+  | [t, p] =>
+    match t with
+    | "b" => if p = "1" then some (.bool true) else if p = "0" then some (.bool false) else none
+    | "y" => match parseBytes? p with
+      | some [x] => some (.byte x)
+      | _ => none
+    | "h" => (parseInt? p).map (fun z => .i16 (BitVec.ofInt 16 z))
+    | "i" => (parseInt? p).map (fun z => .i32 (BitVec.ofInt 32 z))
+    | "l" => (parseInt? p).map (fun z => .i64 (BitVec.ofInt 64 z))
+    | "v" => (parseInt? p).map (fun z => .v7 (BitVec.ofInt 32 z))
+    | "B" => (parseBytes? p).map .bytes
+    | "S" => (parseBytes? p).map .str
+    | "R" => (parseBytes? p).map .raw
+    | _ => none
+  | _ => none
+
+def tagOf : Op → String
+  | .bool => "b" | .byte => "y" | .i16 => "h" | .i32 => "i" | .i64 => "l" | .v7 => "v"
+  | .bytes => "B" | .str => "S" | .raw _ => "R"
+
+def showVal : Val → String
+  | .bool b => if b then "1" else "0"
+  | .byte b => hexOf [b]
+  | .i16 d => toString d.toInt
+  | .i32 d => toString d.toInt
+  | .i64 d => toString d.toInt
+  | .v7 d => toString d.toInt
+  | .bytes l => hexOf l
+  | .str l => hexOf l
+  | .raw l => hexOf l
+
+def showErr : Err → String
+  | .NotEnoughData => "NotEnoughData"
+  | .Bad7BitInt => "Bad7BitInt"
+  | .NegativeSize => "NegativeSize"
+  | .InvalidArgument => "InvalidArgument"
+
+def showOut : Out Val → String
+  | .ok v => "ok:" ++ showVal v
+  | .err e => "err:" ++ showErr e
+  | .crash => "panic"
+
+def parseAll? {α β : Type} (f : α → Option β) : List α → Option (List β)
+  | [] => some []
+  | x :: xs =>
+    match f x, parseAll? f xs with
+    | some y, some ys => some (y :: ys)
+    | _, _ => none
+
+/-- c11 -/
+def stepC11 (_ : Unit) (line : String) : Unit × String :=
+  match words line with
+  | [] => ((), "")
+  | "seq" :: toks =>
+    match parseAll? parseVal? toks with
+    | none => ((), "bad-op")
+    | some vals =>
+      match encode vals with
+      | none => ((), "bytes=diverge")
+      | some bs =>
+        let rs := readSeq bs 0 (vals.map Val.op)
+        let items := (vals.zip rs).map (fun (v, r) =>
+          tagOf v.op ++ ":" ++ (match r.out with
+            | .ok x => showVal x
+            | .err e => "err-" ++ showErr e
+            | .crash => "panic") ++ "@" ++ toString r.pos)
+        let final := match rs.getLast? with
+          | some r => r.pos
+          | none => 0
+        ((), joinSp (["bytes=" ++ hexOf bs, "|"] ++ items ++ ["|", s!"len={bs.length}", s!"pos={final}"]))
+  | _ => ((), "bad-op")
+
+def parseOp? (s : String) : Option Op :=
+  match s with
+  | "bool" => some .bool
+  | "byte" => some .byte
+  | "i16" => some .i16
+  | "i32" => some .i32
+  | "i64" => some .i64
+  | "v7" => some .v7
+  | "bytes" => some .bytes
+  | "str" => some .str
+  | _ =>
+    if s.startsWith "raw" then (parseNat? (s.drop 3).toString).map .raw else none
+
+/-- an op with an optional `@k` prefix -/
+def parseStep? (ws : List String) : Option (Option Nat × Op) :=
+  match ws with
+  | [o] => (parseOp? o).map (fun x => (none, x))
+  | [k, o] =>
+    if k.startsWith "@" then
+      match parseNat? (k.drop 1).toString, parseOp? o with
+      | some k, some o => some (some k, o)
+      | _, _ => none
+    else none
+  | _ => none
+
+def showC12 (buf : List Byte) (pos0 : Nat) (o : Op) (r : Res Val) : String :=
+  let out := match o, r.out with
+    | .raw _, .ok (.raw l) => s!"ok:{l.length}:" ++ hexOf l
+    | _, x => showOut x
+  let remaining := buf.length - pos0
+  let a := if r.alloc > 2 * remaining + 64 then "1" else "0"
+  s!"{out} p={r.pos} l={buf.length} a={a}"
+
+def runC12 (buf : List Byte) : Nat → List (Option Nat × Op) → List String
+  | _, [] => []
+  | pos, (k, o) :: rest =>
+    let pos0 := match k with
+      | some k => k
+      | none => pos
+    let r := read1 buf pos0 o
+    showC12 buf pos0 o r :: runC12 buf r.pos rest
+
+def stepC12 (_ : Unit) (line : String) : Unit × String :=
+  if line.trimAscii.isEmpty then ((), "") else
+  match line.splitOn " | " with
+  | [h, body] =>
+    match parseBytes? h.trimAscii.toString with
+    | none => ((), "bad-op")
+    | some buf =>
+      match parseAll? (fun (s : String) => parseStep? (words s)) (body.splitOn " ; ") with
+      | none => ((), "bad-op")
+      | some steps => ((), " ; ".intercalate (runC12 buf 0 steps))
+  | _ => ((), "bad-op")
+
+def stepSpec (_ : Unit) (line : String) : Unit × String :=
+  match words line with
+  | ["leb", n] => match parseNat? n with
+    | some n => ((), hexOf (Got.Spec.Codec.leb128 n))
+    | none => ((), "bad-op")
+  | ["le", w, n] => match parseNat? w, parseNat? n with
+    | some w, some n => ((), hexOf (Got.Spec.Codec.leBytes w n))
+    | _, _ => ((), "bad-op")
+  | [] => ((), "")
+  | _ => ((), "bad-op")
+
+def main (args : List String) : IO Unit := do
+  match args with
+  | ["c11"] => lineLoop (← IO.getStdin) (← IO.getStdout) stepC11 ()
+  | ["c12"] => lineLoop (← IO.getStdin) (← IO.getStdout) stepC12 ()
+  | ["spec"] => lineLoop (← IO.getStdin) (← IO.getStdout) stepSpec ()
+  | _ => IO.eprintln "usage: drv_codec c11|c12|spec < script"
 
 end Got.Drv.Codec
